@@ -21,18 +21,48 @@
                                  implies that well-formedness;
      * C17_bucket_gt_1_refuted   witness: with a leaf holding two different points (bucket size 2) the
                                  faithful model reports a wrong distance and a wrong order (finding F4).
+     * C17_kd_build_wellformed   the kd-tree CONSTRUCTION (model C17Build.kd_build of KDTree::buildTree,
+                                 calculateCuttingDimension, BinaryTree::splitList, partitionEqually /
+                                 median_element with medianPos = (size+1)/2, default TreeConstruction(),
+                                 bucket size 1): std::nth_element is an explicit oracle argument; for EVERY
+                                 oracle with the post-condition of std::nth_element (a rearrangement whose
+                                 element at the median position is >= all before and <= all behind it), every
+                                 non-empty data set of points of one dimension (duplicates, collinear points,
+                                 points on the splitting plane included) the built tree is well-formed in
+                                 the sense of the query theorems (WF) and its leaves partition 0 .. n-1;
+     * C17_kd_build_then_query_correct
+                                 end to end: the tree built by the construction model, queried by the model of
+                                 IterativeNNQuery, returns k distinct indices with their true distances,
+                                 non-decreasing, every point not reported at least as far (the k nearest
+                                 neighbours) - for every data set, oracle as above, query point and k <= n;
+     * C17_kd_build_oracle_independent
+                                 the built tree does not depend on what std::nth_element does: any two oracles with
+                                 the post-condition give the same cut dimension and threshold in every node and the
+                                 same index SET in every leaf (hence in every node);
+     * C17_kd_build_depth_limit_unreached
+                                 the recursion never exhausts its depth budget: any budget >= number of points
+                                 yields the same tree (the C++ budget is 2^32-1);
+     * C17_nth_check_sound       the executable check median_okb, run in tools/c17.py on every recorded result
+                                 of the real std::nth_element, implies the median part of the oracle hypothesis;
+     * C17_kd_build_hypotheses_satisfiable
+                                 sorting is an admissible oracle; a concrete data set with duplicates and points
+                                 on the splitting planes, its tree and a query result.
    NOT PROVED, compared / monitored only:
-     * kd_build_wellformed (KDTree::buildTree yields a well-formed tree) is NOT a theorem: the
-       threshold of BinaryTree::splitList uses `pos->key`, whose value depends on the element order
-       std::nth_element leaves behind; the real tree is read back from the harness on every run and
-       checked with wf_treeb — and the check does find real trees that are not well-formed (reported
-       as a defect by tools/c17.py, key tree:split-threshold).
-     * the tie between model and C++ (same tree, same queries, all n neighbours, queue size and
-       radius after every call) is a correspondence run, not a proof;
+     * the tie between the models and the C++ is a correspondence run, not a proof:
+       - construction: the harness records what the real std::nth_element left behind at every node; the
+         extracted kd_build gets these arrangements as its oracle (each checked with median_okb at the model's
+         median position) and must reproduce the real tree: cut dimension, threshold, left/right index SET of
+         every node; every real kd-tree is also checked with the extracted wf_treeb and by an independent
+         well-formedness monitor (violations are reported under the key tree:build-wf);
+       - query: same tree, same queries, all n neighbours, queue size and radius after every call;
+     * std::nth_element itself and the two std::partition calls (modelled as stable partitions) are not
+       verified; thresholds: the model halves with Z division, exact on the doubled integer coordinates the
+       correspondence run uses, the C++ computes 0.5*(max+min) in double; the depth limit 2^32-1 and
+       TreeConstruction with maxDepth / bucket size > 1 are outside the construction model;
      * LC-trees, kernel (KHC) trees, bucket sizes > 1, NearestNeighborModel predictions: exhaustive-
        search monitor only. *)
 From Coq Require Import List ZArith Permutation.
-From SharkV Require Import C17Model C17Proofs.
+From SharkV Require Import C17Model C17Proofs C17Build C17BuildProofs C17BuildIndepProofs.
 Import ListNotations.
 Open Scope Z_scope.
 
@@ -95,3 +125,56 @@ Theorem C17_hypotheses_satisfiable :
   WF data [] t /\ query data t [9; 0] 4 = [(29, 2%nat); (29, 1%nat); (37, 3%nat); (85, 0%nat)].
 Proof. exact wf_example. Qed.
 Print Assumptions C17_hypotheses_satisfiable.
+
+(* ---- construction (definitions: C17Build.v; nth_spec / oracle_ok / uniform are spelled out there) ---- *)
+
+Theorem C17_kd_build_wellformed :
+  forall (data : list point) (oracle : list kv -> list kv) (dim : nat),
+  data <> [] -> uniform dim data -> oracle_ok oracle ->
+  WF data [] (kd_build data oracle) /\
+  Permutation (tindices (kd_build data oracle)) (seq 0 (length data)).
+Proof. exact kd_build_wellformed. Qed.
+Print Assumptions C17_kd_build_wellformed.
+
+Theorem C17_kd_build_then_query_correct :
+  forall (data : list point) (oracle : list kv -> list kv) (dim : nat) (q : point) (k : nat),
+  data <> [] -> uniform dim data -> oracle_ok oracle -> (k <= length data)%nat ->
+  let res := query data (kd_build data oracle) q k in
+  length res = k /\
+  NoDup (map snd res) /\
+  (forall d i, In (d, i) res -> (i < length data)%nat /\ d = dist2 (pt data i) q) /\
+  dsorted (map fst res) /\
+  (forall j, (j < length data)%nat -> ~ In j (map snd res) ->
+             forall d, In d (map fst res) -> d <= dist2 (pt data j) q).
+Proof. exact kd_build_then_query_correct. Qed.
+Print Assumptions C17_kd_build_then_query_correct.
+
+Theorem C17_kd_build_oracle_independent :
+  forall (data : list point) (dim : nat) (o1 o2 : list kv -> list kv),
+  uniform dim data -> oracle_ok o1 -> oracle_ok o2 ->
+  tree_equiv (kd_build data o1) (kd_build data o2).
+Proof. exact kd_build_oracle_independent. Qed.
+Print Assumptions C17_kd_build_oracle_independent.
+
+Theorem C17_kd_build_depth_limit_unreached :
+  forall (data : list point) (oracle : list kv -> list kv), oracle_ok oracle ->
+  forall (f1 f2 : nat) (elems : list nat), (length elems <= f1)%nat -> (length elems <= f2)%nat ->
+  build f1 data oracle elems = build f2 data oracle elems.
+Proof. exact build_fuel_enough. Qed.
+Print Assumptions C17_kd_build_depth_limit_unreached.
+
+Theorem C17_nth_check_sound :
+  forall (mp : nat) (r : list kv), median_okb mp r = true -> median_prop mp r.
+Proof. exact median_okb_sound. Qed.
+Print Assumptions C17_nth_check_sound.
+
+(* the hypotheses of the construction theorems are satisfiable *)
+Theorem C17_kd_build_hypotheses_satisfiable :
+  let data := [[0; 2]; [4; 2]; [4; 2]; [10; -6]; [4; 8]; [4; -6]] in
+  data <> [] /\ uniform 2 data /\ oracle_ok ksort /\
+  kd_build data ksort =
+    Node 1 (-2) (Node 0 7 (Leaf [5%nat]) (Leaf [3%nat]))
+                (Node 1 5 (Node 0 2 (Leaf [0%nat]) (Leaf [1%nat; 2%nat])) (Leaf [4%nat])) /\
+  query data (kd_build data ksort) [9; 0] 3 = [(29, 1%nat); (29, 2%nat); (37, 3%nat)].
+Proof. exact kd_build_example. Qed.
+Print Assumptions C17_kd_build_hypotheses_satisfiable.
